@@ -396,12 +396,13 @@ class BodyPartReader:
         carry = self._b64_carry
         want = size - len(carry)
         if carry:
-            self._b64_carry = b""
             want = max(want, self._boundary_len)
         if self._length:
             fresh = await self._read_chunk_from_length(want)
         else:
             fresh = await self._read_chunk_from_stream(want)
+        # Taken over only now: an interrupted wait leaves the carry in place.
+        self._b64_carry = b""
         chunk = carry + fresh
         self._read_bytes += len(fresh)
 
@@ -426,8 +427,22 @@ class BodyPartReader:
 
         if self._read_bytes == self._length:
             self._at_eof = True
-        if self._at_eof and await self._content.readline() != b"\r\n":
-            raise ValueError("Reader did not read all the data or it is malformed")
+        if self._at_eof:
+            try:
+                line = await self._content.readline()
+            except BaseException:
+                if self._length:
+                    # Interrupted while waiting for the CRLF after the last
+                    # byte: undo the step, the next call reads it again.
+                    with warnings.catch_warnings():
+                        warnings.filterwarnings("ignore", category=DeprecationWarning)
+                        self._content.unread_data(fresh)
+                    self._read_bytes -= len(fresh)
+                    self._at_eof = False
+                    self._b64_carry = carry
+                raise
+            if line != b"\r\n":
+                raise ValueError("Reader did not read all the data or it is malformed")
         return chunk
 
     def _align_base64_chunk(self, chunk: bytes, size: int) -> bytes:
